@@ -961,9 +961,37 @@ pub fn gen_burst_scenario(rng: &mut rand::rngs::SmallRng) -> Scenario {
             events.push(Ev::Op { t: tt + 2, node: w, spec: OpSpec { kind: "put_many".to_string(), ks, ids: idv, level: "None".to_string(), dup: false, empty: false } });
         }
     }
+    let mut tail_same_skew: Option<(u8, u8)> = None;
+    // a node's last word on a keyspace is the delete of a document it never held itself: the
+    // document is written a moment earlier on a peer that has been in sync with the deleter all
+    // along, the link between the two is held for a while, and the deleter tells nobody - only
+    // anti-entropy can carry the delete
+    if rng.gen_bool(0.4) && ids.len() >= 2 {
+        let non_writers: Vec<u8> = ids.iter().copied().filter(|x| !writers.contains(x)).collect();
+        if let Some(putter) = non_writers.choose(rng).copied() {
+            let others: Vec<u8> = ids.iter().copied().filter(|x| *x != putter).collect();
+            let deleter = *others.choose(rng).unwrap();
+            let ks = kss.choose(rng).unwrap().clone();
+            let tt = t + rng.gen_range(4_500..7_000);
+            let fresh = nids + 7;
+            events.push(Ev::Hold { t: tt - 400, a: putter, b: deleter });
+            events.push(Ev::View { t: tt - 300, node: deleter, members: vec![] });
+            events.push(Ev::Op { t: tt - rng.gen_range(5..100), node: putter, spec: OpSpec { kind: "put".to_string(), ks: ks.clone(), ids: vec![fresh], level: "None".to_string(), dup: false, empty: false } });
+            events.push(Ev::Op { t: tt, node: deleter, spec: OpSpec { kind: if rng.gen_bool(0.6) { "del" } else { "del_many" }.to_string(), ks, ids: vec![fresh], level: "None".to_string(), dup: false, empty: false } });
+            events.push(Ev::Release { t: tt + rng.gen_range(2_500..4_000), a: putter, b: deleter });
+            // the delete is meant to be the newer of the two: same wall-clock offset on both nodes
+            tail_same_skew = Some((putter, deleter));
+        }
+    }
     // storage trouble while the data moves by anti-entropy only: a writer's bulk write applied
     // part-way, a puller's store failing in the middle of applying a repair exchange
     let mut cfg = cfg;
+    if let Some((p, d)) = tail_same_skew {
+        let sk = cfg.nodes.iter().find(|n| n.id == p).map(|n| n.skew_ms).unwrap_or(0);
+        if let Some(n) = cfg.nodes.iter_mut().find(|n| n.id == d) {
+            n.skew_ms = sk;
+        }
+    }
     if rng.gen_bool(0.5) {
         for n in cfg.nodes.iter_mut() {
             if rng.gen_bool(0.6) {
@@ -1193,7 +1221,15 @@ impl Check for C01 {
             Tier::Thorough => Budget { wall_secs: 900, max_cases: 100_000, checkpoint_every: 1, workers: 16 },
         }
     }
-    fn generate(&self, seed: u64, idx: u64, _tier: Tier) -> Value {
+    fn generate(&self, seed: u64, idx: u64, tier: Tier) -> Value {
+        // single-node arm: peers skip a keyspace whose advertised change timestamp they have
+        // already synced, so every request that changes what a keyspace holds must move it
+        if mix(0xFA41, idx) % 8 == 1 {
+            let sc = crate::e1::c02::C02.generate(seed ^ 0xAD7, 1_000_000 + idx * 47 + 1, tier);
+            if sc.get("cluster").is_none() {
+                return serde_json::json!({ "advert": sc });
+            }
+        }
         let mut rng = rng_from(case_seed(seed, idx));
         // scenario families, spread over all workers (worker i takes indexes i, i+16, ...)
         match mix(0xFA41, idx) % 8 {
@@ -1204,10 +1240,22 @@ impl Check for C01 {
         let k = GenKnobs { max_nodes: 5, max_ops: 40, span_ms: 25_000, level_bias_none: 0.4 };
         serde_json::to_value(gen_cluster_scenario(&mut rng, &k)).unwrap()
     }
-    fn isolate(&self, _scenario: &Value) -> bool {
-        true
+    fn isolate(&self, scenario: &Value) -> bool {
+        scenario.get("advert").is_none()
     }
     fn execute(&self, scenario: &Value) -> Outcome {
+        if let Some(a) = scenario.get("advert") {
+            let sc: crate::e1::c02::Scenario = match serde_json::from_value(a.clone()) {
+                Ok(s) => s,
+                Err(e) => return Outcome::invalid(format!("bad scenario: {e}")),
+            };
+            let class = "C01/keyspace-changed-without-a-new-change-timestamp";
+            let mut out = crate::e1::c02::execute_scenario_with(&sc, "C01-single-node", Some(class));
+            // set/store agreement is C02's subject
+            out.violations.retain(|v| v.class == class || v.class.contains("/panic@"));
+            out.probe("single_node_advertising_arm_case");
+            return out;
+        }
         let sc: Scenario = match serde_json::from_value(scenario.clone()) {
             Ok(s) => s,
             Err(e) => return Outcome::invalid(format!("bad scenario: {e}")),
@@ -1222,6 +1270,9 @@ impl Check for C01 {
         }
     }
     fn shrink(&self, sc: &Value) -> Vec<Value> {
+        if let Some(a) = sc.get("advert") {
+            return crate::e1::c02::shrink_groups(a).into_iter().map(|v| serde_json::json!({ "advert": v })).collect();
+        }
         shrink_cluster(sc)
     }
 }
